@@ -10,6 +10,9 @@
 import PyGqlModel.Lemmas.PrintTokens
 import PyGqlModel.Lemmas.PrintLexFloat
 import PyGqlModel.Lemmas.PrintTokensDir
+import PyGqlModel.Lemmas.PrintLayExec
+import PyGqlModel.Lemmas.PrintMatchExec
+import PyGqlModel.Lemmas.PrintBlockLay
 import PyGqlModel.Props.C01_parse
 namespace PyGql.Props.C03
 open PyGql PyGql.Ast PyGql.Parse PyGql.Spec PyGql.Print PyGql.PrintLex PyGql.PrintMatch PyGql.PrintTokens PyGql.Lex
@@ -182,6 +185,119 @@ def PrintStableStatement : Prop :=
     ∃ toks' d', lexAll (printDocument c d) = .ok toks' ∧ parseDocument fl toks' = .ok d' ∧
       printDocument c d' = printDocument c d
 
+/-! ### block strings under every enclosing indentation -/
+
+/-- `block_lay_multiline` — the hypothesis `BlockLay` (the printed block string is ONE BlockString token with the same
+    value under EVERY enclosing `_indent`, i.e. at every nesting depth) is DISCHARGED for every value that the printer
+    lays out in the multi-line form `"""⏎ … ⏎"""` (every value that does not start with a blank, and every value with
+    a line break) and that has the shape `BlockStringValue` produces: lines without CR/LF made of block-string
+    characters, first and last line not blank, smallest indentation of the non-blank lines 0.
+    Ingredients: the lexer's scan inverts the escaping (`block_roundtrip_partial` of the string part), the escaping
+    commutes with `_indent` (`escape_replaceLF`), and the three layout lemmas of the string part compose
+    (`parseBlockString_layout`).  NOT covered: the one-line form (`"""  x"""`, values starting with a blank and without a
+    line break) and the empty value — both stay with the correspondence / direct oracle. -/
+theorem block_lay_multiline (ind l : Text) (ls : List Text) (hind : ∀ ch ∈ ind, ch = 32 ∨ ch = 9)
+    (hlines : ∀ x ∈ l :: ls, BlockString.IsLine x) (hchars : ∀ ch ∈ BlockString.joinLF (l :: ls), blockChar ch = true)
+    (hfirst : Spec.onlyWhiteSpace l = false) (hlast : Spec.onlyWhiteSpace ((l :: ls).getLast (by simp)) = false)
+    (hmin : (l :: ls).foldl BlockString.indentStep none = some 0)
+    (hml : multiLineForm (BlockString.joinLF (l :: ls)) = true) :
+    BlockLay ind (BlockString.joinLF (l :: ls)) :=
+  blockLay_multiline ind l ls hind hlines hchars hfirst hlast hmin hml
+
+/-- `print_parse_value_spec`: `print_parse_value` with every leaf condition given by the SPECIFICATION recognisers
+    (names, integers, floats) and block strings by `BlockLay` (discharged above for the multi-line form). -/
+theorem print_parse_value_spec (fl : Flags) (hnl : fl.noLocation = true) (c : Cfg) (v : Value)
+    (hl : okValue c.indent v) (hn : noLocValue v = true) (hw : wfValue false v = true) :
+    ∃ toks, lexAll (printValue c v) = .ok toks ∧ parseValue fl toks = .ok v := by
+  have hlx := lexesTo_of_lay (lay_value c v hl) [] [] safe_nil lexesTo_nil
+  simp only [List.append_nil] at hlx
+  obtain ⟨toks, h1, h2⟩ := lexAll_of_lexesTo hlx
+  refine ⟨_, h1, ?_⟩
+  apply C01.parseValue_complete fl _ v hw
+  show matchesAll fl _ _ = true
+  apply matchesAll_of_yield fl hnl
+  · simp [plainAll, plain, plain_valueV v hn]
+  · simp [classes, Item.yieldAll, Item.yield, cls_sof, cls_eof, yieldValue] at h2 ⊢
+    exact h2
+
+/-! ### executable documents IN FULL -/
+
+/-- `print_tokens_executable`: for every executable document (operations in long and short form, variable definitions
+    with defaults and directives, fields with aliases / arguments / directives, fragment spreads, inline fragments,
+    selection sets nested to ANY depth through `_block` / `_indent`, fragment definitions with fragment variables) whose
+    leaves are lexemes of their class by the specification recognisers (`okExecDefinitions`), and every indentation
+    string over {space, tab}: the printed document lexes to SOF, exactly the canonical yield of its definitions, EOF.
+    Block strings (any depth) enter through the string-level hypothesis `BlockLay`. -/
+theorem print_tokens_executable (c : Cfg) (hind : IndentOK c) (d : Document)
+    (hok : okExecDefinitions c.indent d.definitions) :
+    ∃ toks, lexAll (printDocument c d) = .ok (sofTok :: toks ++ [eofTok (printDocument c d).length]) ∧
+      classes toks = Item.yieldAll (d.definitions.map definitionV) :=
+  lexAll_of_lexesTo (lexesTo_execDocument c hind d hok)
+
+/-- `print_parse_executable`: `parse(print(d), no_location=True) = d` for every such well-formed, location-free
+    executable document, every indentation setting and every flag combination with `no_location`
+    (uses `parse_complete_document` of C01). -/
+theorem print_parse_executable (fl : Flags) (hnl : fl.noLocation = true) (c : Cfg) (hind : IndentOK c) (d : Document)
+    (hok : okExecDefinitions c.indent d.definitions) (hn : noLocExecDocument d = true) (hw : wfDocument fl d = true) :
+    ∃ toks, lexAll (printDocument c d) = .ok toks ∧ parseDocument fl toks = .ok d := by
+  obtain ⟨toks, h1, h2⟩ := print_tokens_executable c hind d hok
+  refine ⟨_, h1, ?_⟩
+  apply C01.parse_complete_document fl _ d hw
+  exact matches_execDocument fl hnl d hn sofTok (eofTok _) cls_sof (cls_eof _) toks h2
+
+/-- `print_stable_executable` -/
+theorem print_stable_executable (fl : Flags) (hnl : fl.noLocation = true) (c : Cfg) (hind : IndentOK c) (d : Document)
+    (hok : okExecDefinitions c.indent d.definitions) (hn : noLocExecDocument d = true) (hw : wfDocument fl d = true) :
+    ∃ toks d', lexAll (printDocument c d) = .ok toks ∧ parseDocument fl toks = .ok d' ∧
+      printDocument c d' = printDocument c d := by
+  obtain ⟨toks, h1, h2⟩ := print_parse_executable fl hnl c hind d hok hn hw
+  exact ⟨toks, d, h1, h2, rfl⟩
+
+/-- non-vacuity: `query Q($v: Int = 1 @d) @live { a: b(x: "s") { ...F ... on T @e { c } } }  fragment F on T { d }  { e }` -/
+private def nm (s : String) : Name := ⟨textOfString s, none⟩
+private def exDoc : Document :=
+  ⟨[.operation ⟨K.query, some (nm "Q"),
+      [⟨⟨nm "v", none⟩, .named ⟨nm "Int", none⟩, some (.int [49] none), [⟨nm "d", [], none⟩], none⟩],
+      [⟨nm "live", [], none⟩],
+      .mk [.field (some (nm "a")) (nm "b") [⟨nm "x", .string ⟨[115], false, none⟩, none⟩] []
+            (some (.mk [.fragmentSpread (nm "F") [] none,
+                        .inlineFragment (some ⟨nm "T", none⟩) [⟨nm "e", [], none⟩] (.mk [.field none (nm "c") [] [] none none] none) none] none)) none] none,
+      none⟩,
+    .fragment ⟨nm "F", [], ⟨nm "T", none⟩, [], .mk [.field none (nm "d") [] [] none none] none, none⟩,
+    .operation ⟨K.query, none, [], [], .mk [.field none (nm "e") [] [] none none] none, none⟩], none⟩
+
+example : ∃ toks, lexAll (printDocument (mkCfg (.str [32, 9])) exDoc) = .ok toks ∧
+    parseDocument { noLocation := true } toks = .ok exDoc :=
+  print_parse_executable _ rfl _ (by intro ch hc; simp [mkCfg] at hc; omega) exDoc
+    (by
+      simp only [exDoc, okExecDefinitions, okExecDefinition, okOperation, okFragment, okVarDefs, okVarDef, okDirectives,
+        okDirective, okArguments, okArgument, okSelectionSet, okSelections, okSelection, okOptSelectionSet, okValue,
+        lexOkType, nm]
+      repeat' apply And.intro
+      all_goals first | decide | simp)
+    (by decide) (by decide)
+
+/-- non-vacuity: the block string `a"""⏎  b\` (embedded triple quote, an indented second line, trailing backslash)
+    as an argument two selection sets deep, TAB indentation: `{ f { g(x: """…""") } }` -/
+private def exBlockLines : List Text := [[97, 34, 34, 34], [32, 32, 98, 92]]
+private def exBlockDoc : Document :=
+  ⟨[.operation ⟨K.query, none, [], [],
+      .mk [.field none ⟨[102], none⟩ [] [] (some (.mk [.field none ⟨[103], none⟩
+        [⟨⟨[120], none⟩, .string ⟨BlockString.joinLF exBlockLines, true, none⟩, none⟩] [] none none] none)) none] none,
+      none⟩], none⟩
+
+example : ∃ toks, lexAll (printDocument (mkCfg (.str [9])) exBlockDoc) = .ok toks ∧
+    parseDocument { noLocation := true } toks = .ok exBlockDoc := by
+  have hb : BlockLay [9] (BlockString.joinLF exBlockLines) :=
+    block_lay_multiline [9] _ _ (by decide)
+      (by intro x hx; simp at hx; rcases hx with rfl | rfl <;> (intro ch hc; simp at hc; omega))
+      (by decide) (by decide) (by decide) (by decide) (by decide)
+  refine print_parse_executable _ rfl _ (by intro ch hc; simp [mkCfg] at hc; omega) exBlockDoc ?_ (by decide) (by decide)
+  simp only [exBlockDoc, okExecDefinitions, okExecDefinition, okOperation, okVarDefs, okDirectives, okArguments, okArgument,
+    okSelectionSet, okSelections, okSelection, okOptSelectionSet, okValue, mkCfg]
+  repeat' apply And.intro
+  all_goals first | decide | (intro _; exact hb) | simp
+
 /-! ### R4: the refutation witness of `PrintParseStatement` (also the replay on the implementation) -/
 
 /-- `enum E {"" A}` -/
@@ -255,17 +371,22 @@ theorem print_stable_of_modulo (h : PrintParseModuloMembersStatement) :
   exact ⟨toks', _, a, b, print_ignores_member_descriptions c d⟩
 
 /-- `print_parse_partial` — what is PROVED of `PrintParseModuloMembersStatement` / `PrintParseStatement`, for every
-    indentation configuration and every flag combination with `no_location`:
+    indentation configuration over {space, tab} and every flag combination with `no_location`:
       (1) TYPES in full (`print_parse_type`);
-      (2) VALUES: all 9 kinds, nested lists / objects, variables, quoted strings with arbitrary content; floats and
-          block strings under the string-level hypotheses `FloatLexeme` / `BlockLexeme` (block strings at nesting
-          depth 0: the value position of `parse_value`) (`print_parse_value`).
-    Token level one layer up: ARGUMENTS and DIRECTIVES (`print_tokens_directives`).
-    MISSING: variable definitions (same lemmas, one more layer), selections and selection sets
-    (need `_indent` = `replaceLF` commuting with lexing: an LF-prefix of ignored characters inside block strings is the
-    lemma `indent_common_shift` of the string part), operations / fragments / type-system definitions and the document
-    loop (need the document-level `parse_complete` of C01, itself open).  All of these are covered by the
-    correspondence (exact strings, model = code) and the direct oracle of corr/C03_print.py. -/
+      (2) VALUES in full: all 9 kinds, nested lists / objects, variables, quoted strings with arbitrary content, integers
+          and floats by the specification recognisers (`print_parse_value`, `print_parse_value_spec`,
+          `float_lexeme_spec`); block strings through `BlockLay`, discharged for the multi-line form at every depth
+          (`block_lay_multiline`);
+      (3) EXECUTABLE DOCUMENTS in full (`print_parse_executable`, stated separately because it needs `IndentOK`):
+          operations (long form and shorthand), variable definitions, fields, aliases, arguments, directives, fragment
+          spreads, inline fragments, selection sets nested to any depth through `_block`/`_indent`, fragment
+          definitions (with fragment variables), the document loop.
+    MISSING: type-system definitions and extensions (the same `Lay` lemmas apply to `_with_desc`, `_block` of field /
+    enum-value / input-value definitions and the multi-line argument definitions; the matcher side needs the optional
+    separators `&?`, `|?` and the `[lookahead ≠ {]` items of the views, and the statement is modulo member descriptions,
+    finding R4), mixed documents where the R6 guard inserts `query`, the one-line block-string form and the empty block
+    string.  All of these are covered by the correspondence (exact strings, model = code) and the direct oracle of
+    corr/C03_print.py. -/
 theorem print_parse_partial (fl : Flags) (hnl : fl.noLocation = true) (c : Cfg) :
     (∀ t, lexOkType t = true → noLocType t = true → wfType t = true →
       ∃ toks, lexAll (printType t) = .ok toks ∧ parseType fl toks = .ok t) ∧
